@@ -181,12 +181,16 @@ class Tr(object):
                 return '(Z.%s %s %s)' % (f.id, self.z(e.args[0], env), self.z(e.args[1], env)), 'Z'
             if isinstance(f, ast.Name) and f.id == 'abs' and len(e.args) == 1:
                 return '(Z.abs %s)' % self.z(e.args[0], env), 'Z'
+            def int_div_of_ints(x):
+                return (isinstance(x, ast.BinOp) and isinstance(x.op, ast.Div) and
+                        not self.is_float(x.left, env) and not self.is_float(x.right, env))
             if (isinstance(f, ast.Name) and f.id == 'int' and len(e.args) == 1 and isinstance(e.args[0], ast.Call) and
                     ast.unparse(e.args[0].func) in ('math.ceil', 'math.floor') and len(e.args[0].args) == 1 and
-                    self.is_float(e.args[0].args[0], env)):
+                    not int_div_of_ints(e.args[0].args[0]) and self.is_float(e.args[0].args[0], env)):
                 fn = 'fceil' if ast.unparse(e.args[0].func) == 'math.ceil' else 'ffloor'
                 return '(%s %s)' % (fn, self.expr(e.args[0].args[0], env)[0]), 'Z'
-            if isinstance(f, ast.Name) and f.id == 'int' and len(e.args) == 1 and self.is_float(e.args[0], env):
+            if (isinstance(f, ast.Name) and f.id == 'int' and len(e.args) == 1 and not isinstance(e.args[0], ast.Call)
+                    and self.is_float(e.args[0], env)):
                 return '(trunc %s)' % self.expr(e.args[0], env)[0], 'Z'       # int() of a finite float truncates
             if isinstance(f, ast.Name) and f.id == 'int' and len(e.args) == 1:
                 inner = e.args[0]
